@@ -7,7 +7,7 @@ from parglare.exceptions import DisambiguationError, SRConflicts, RRConflicts, G
 
 import gen
 from pcommon import *
-from enc import enc_items
+from enc import enc_items, glr_alt_set, parse_glr_reply
 
 MANIFEST_ENTRY = {
     "category": "proof",
@@ -23,13 +23,18 @@ MANIFEST_ENTRY = {
             "strategy-free table is run through the validator with the implementation's own item sets and FIRST "
             "sets, and detTableB/lexDetB are evaluated per table and input; the model driver is run against "
             "Parser.parse on the same table/input (outcome, tree, error position); the chart oracle and the tree "
-            "checker are proved correct; 'GLR has exactly that one tree' is compared on the explored scope",
+            "checker are proved correct. GLR: every tree of the packed forest of the GLR driver model has the shape "
+            "of the LR driver's tree and any two of them have the same shape (C04_glr_model_trees_are_the_parser_tree, "
+            "C04_glr_model_single_tree: forest soundness + unambiguity); the GLR model is run against GLRParser on "
+            "every deterministic table and input (exact packed alternatives); that GLR answers with a forest for "
+            "every sentence is compared with Parser on the explored scope",
     "note": "trusted: Lean kernel; Model/LR.lean, Model/Lex.lean are hand-written from parser.py and validated by "
             "correspondence; recognizers and layout skipping enter as data (match table, skip table computed by the "
             "real code); the theorem's side conditions on the decoded data (table empty beyond its n states, matches "
             "inside the text) are theorems about the driver's decoder (Model/Decode.lean, "
             "C04_exact_on_decoded_data); 'shape' ignores the spans recorded in interior nodes (C08's subject); "
-            "equality with GLR's single tree is an oracle comparison",
+            "GLR's acceptance of every sentence over a deterministic table is an oracle comparison, the equality "
+            "of its trees with the parser's is a theorem about the GLR model",
     "technique": "Lean 4 proof (stack invariant + walk-back lemma; completeness by validation + simulation) + verified "
                  "checkers and validators on implementation output + model/implementation correspondence",
 }
@@ -39,7 +44,8 @@ LEVEL = "proof"
 THEOREMS = ["C04_sound", "C04_sound_prefix", "C04_tree_checker_correct", "C04_sentence_oracle_correct",
             "C04_lookahead_is_token_edge",
             "C04_complete_when_deterministic", "C04_exact_when_deterministic", "det_complete", "detOK_of_bool", "C04_exact_on_decoded_data",
-            "C04_parser_tree_is_the_parse_tree", "C04_unambiguous_when_deterministic"]
+            "C04_parser_tree_is_the_parse_tree", "C04_unambiguous_when_deterministic",
+            "C04_glr_model_trees_are_the_parser_tree", "C04_glr_model_single_tree"]
 META = {
     "rule": "cases = (grammar, prefer_shifts, prefer_shifts_over_empty, LALR|SLR, input incl. layout variants) for "
             "which Parser() constructs; non-trivial = accepted input with a tree of >= 2 interior nodes, or a "
@@ -114,6 +120,7 @@ def run_unit(u):
                     b.add("grammar", enc_grammar(num))
                     b.add("table", enc_table(num, p.table))
                     qwf = b.add("wf")
+                    glr_model = []
                     # hypotheses of C04_exact_when_deterministic on this table (item sets of the implementation)
                     qv = b.add("lrvalid", enc_items(num, p.table, tname == "LALR", 1)) if det else None
                     qdets = []
@@ -153,8 +160,29 @@ def run_unit(u):
                                 glr_out = ("syntax",)
                             except BudgetExceeded:
                                 glr_out = None
+                        if det and glr_out is not None:
+                            glr_model.append((case, text, glr_alt_set(num, f) if glr_out[0] == "forest" else "syntax"))
                         checks.append((case, impl, qlr, qs, qd, det, glr_out))
+                    # the GLR driver model on GLRParser's own table (hypotheses of
+                    # C04_glr_model_trees_are_the_parser_tree: wf, skipidem; lrvalid/detok above)
+                    gq = []
+                    if glr_model:
+                        b.add("table", enc_table(num, glr[tname].table))
+                        qwfg = b.add("wf")
+                        for case, text, impl_glr in glr_model:
+                            b.add("input", enc_input(num, glr[tname], text))
+                            gq.append((case, impl_glr, b.add("glr", 4000, 1, 0), b.add("skipidem")))
                     out = b.run()
+                    for case, impl_glr, qg, qi in gq:
+                        mg = parse_glr_reply(out[qg])
+                        if isinstance(mg, str) and mg in ("ordersens", "fuel"):
+                            bump(st, "glr_model_" + mg)
+                        else:
+                            bump(st, "glr_model_compared")
+                            if mg != impl_glr:
+                                res["disagreements"].append({"case": case, "what": "GLR driver model differs from GLRParser",
+                                                             "impl": str(impl_glr)[:200], "model": str(mg)[:200]})
+                        bump(st, "glr_hyp_" + ("met" if out[qi] == "skipidem 1" and out[qwfg] == "wf 1" else "unmet"))
                     st["traces"] += len(checks)
                     if out[qwf] != "wf 1":
                         res["violations"].append({"kind": "table-not-wf",
